@@ -106,7 +106,9 @@ def run_case(ctx, f, c):
     w_high = Obj("w_high", precedence=1)
     w_low = Obj("w_low", precedence=0)
     wl = [w_high, w_low] if c["watchers"] else []
-    owner_ns = Obj("owner_ns", _BATCH_WATCH=c["batch"])
+    # while a batch is open, an event for the very same transition is already pending (value toggled back and forth)
+    pending = [Obj("pending_event", __eqclass__="event:x:held->new")] if c["batch"] else []
+    owner_ns = Obj("owner_ns", _BATCH_WATCH=c["batch"], _events=list(pending), _state_events=list(pending))
     owner = Obj("Owner", param=owner_ns)
     REF = Obj("the_reference")
     pobj = Obj("param_x", name="x", allow_refs=c["allow_refs"], constant=c["constant"], readonly=c["readonly"],
@@ -121,7 +123,7 @@ def run_case(ctx, f, c):
                    syncing=(["x"] if mode == "plain_link_syncing" else []),
                    refs=({"x": Obj("old_reference")} if mode in ("plain_link", "plain_link_syncing") else ({"x": REF} if mode == "syncref_same" else {})),
                    values=RecDict({"x": held}), watchers=({"x": {"value": list(wl)}} if wl else {}), async_refs={})
-        ns = Obj("inst_ns", _BATCH_WATCH=c["batch"])
+        ns = Obj("inst_ns", _BATCH_WATCH=c["batch"], _events=list(pending), _state_events=list(pending))
         inst = Obj("inst", _param__private=priv, param=ns)
 
     def hook(fn, args, kwargs):
@@ -162,7 +164,7 @@ def run_case(ctx, f, c):
             return None
         if fn.endswith("._call_watcher"):
             ev = args[1] if len(args) > 1 else None
-            okev = isinstance(ev, Record) and ev.kwargs.get("old") is held and ev.kwargs.get("new") is NEW and ev.kwargs.get("name") == "x"
+            okev = isinstance(ev, Obj) and ev.attrs.get("old") is held and ev.attrs.get("new") is NEW and ev.attrs.get("name") == "x" and ev.attrs.get("what") == "value"
             trace.append("dispatch:%s%s" % (getattr(args[0], "name", "?"), "" if okev else "(wrong-event)"))
             return None
         if fn.endswith("._batch_call_watchers"):
@@ -170,6 +172,10 @@ def run_case(ctx, f, c):
             return None
         if fn == "warnings.warn":
             return None
+        if fn == "Event" and not args:
+            # Event is a namedtuple: equal to any other Event with the same fields
+            same = kwargs.get("old") is held and kwargs.get("new") is NEW and kwargs.get("name") == "x"
+            return Obj("event", __eqclass__="event:x:held->new" if same else "event:other", **kwargs)
         return NotImplemented
     UNDEF = Obj("Undefined")
     it = Interp(ctx.hier, dyn=PARAMETER, call_hook=hook,
@@ -192,6 +198,8 @@ ASPECTS = {
     "C01": "validation precedes every store; a rejected value stores nothing",
     "C02": "an assignment that raises leaves no effect behind (store, relink, post_setter, update_deps, dispatch, flush)",
     "C03": "after the store: update_deps, every value watcher in precedence order with event(old, new), flush iff not batching",
+    "C04": "while a batch is open every assignment still hands its event to every watcher, also when an equal event (same transition) is already pending: the flush keeps the LAST event per parameter, so a skipped one leaves the watchers with a stale value",
+    "C05": "everything an assignment does besides notifying (store, link install/drop, post_setter, dependency rebinding) is done before the first watcher runs: a watcher that raises must not leave the assignment half applied (value stored, link unchanged)",
     "C08": "relink(ref) iff a reference was assigned; relink(None) iff a plain value overrides an existing link (not for the sync's own write)",
     "C10": "a plain value that overrides an existing link ends it -- relink(None) is what cancels the pending asynchronous evaluation -- and a new reference replaces the old one (not for the sync's own write)",
     "C12": "class route writes the class default only, instance routes the instance store only -- and always record the value for the instance, also when it is the object the class default currently is",
@@ -236,6 +244,15 @@ def classify(c, got, want):
     wd = [t for t in wtrace if t.startswith(("dispatch", "flush", "update_deps", "post_setter"))]
     if gd != wd and not (gexc and not wexc):
         out.add("C03")
+        if c["batch"] and [t for t in gd if t.startswith("dispatch")] != [t for t in wd if t.startswith("dispatch")]:
+            out.add("C04")
+    first_notify = next((i for i, t in enumerate(gtrace) if t.startswith(("dispatch", "flush"))), None)
+    if first_notify is not None:
+        late = [t for t in gtrace[first_notify:] if t.startswith(("relink", "post_setter", "update_deps"))]
+        if late:
+            out.add("C05")
+            if any(t.startswith("relink") for t in late):
+                out.add("C08")
     if "validate" in wtrace and gtrace and "validate" in gtrace and gtrace.index("validate") != 0:
         out.add("C02")
     if not out:
@@ -246,6 +263,9 @@ def classify(c, got, want):
 def _canon(trace):
     rel = [t for t in trace if t.startswith("relink")]
     rest = [t for t in trace if not t.startswith("relink")]
+    first_notify = next((i for i, t in enumerate(trace) if t.startswith(("dispatch", "flush", "update_deps"))), len(trace))
+    if any(i > first_notify for i, t in enumerate(trace) if t.startswith("relink")):
+        return trace          # (un)linking after the watchers were told: not a matter of taste any more
     if "post_setter" in rest and rel:
         i = rest.index("post_setter")
         return rest[:i] + rel + rest[i:]
